@@ -39,10 +39,14 @@ NextReduce32 ==
   \/ phase = 1 /\ a' \in {b * 65536 + o : o \in R32Offs} /\ phase' = 2 /\ UNCHANGED <<b, c>>
 
 \* hint domain: a1 in 0..15, a0 around the thresholds and on a stride over (-2*gamma2, 2*gamma2)
+\* (the operand is chosen block by block: one set of 4*gamma2 values exceeds TLC's bound on enumerated sets)
+HintLo == -(2 * GAMMA2) + 1
+HintBlocks == 0..((4 * GAMMA2 - 2) \div 65536)
 NextHint ==
-  \/ phase = 0 /\ b' \in 0..15 /\ phase' = 1 /\ UNCHANGED <<a, c>>
-  \/ phase = 1 /\ a' \in {x \in (-(2 * GAMMA2) + 1)..(2 * GAMMA2 - 1) :
-                            Stride = 1 \/ x % Stride = 0 \/ Near(x, {-GAMMA2, GAMMA2, 0}, 4) \/ Abs(x) > 2 * GAMMA2 - 4}
+  \/ phase = 0 /\ b' \in 0..15 /\ c' \in HintBlocks /\ phase' = 1 /\ UNCHANGED a
+  \/ phase = 1 /\ a' \in {x \in (HintLo + c * 65536)..(HintLo + c * 65536 + 65535) :
+                            /\ x <= 2 * GAMMA2 - 1
+                            /\ (Stride = 1 \/ x % Stride = 0 \/ Near(x, {-GAMMA2, GAMMA2, 0}, 4) \/ Abs(x) > 2 * GAMMA2 - 4)}
      /\ phase' = 2 /\ UNCHANGED <<b, c>>
 
 \* lemma: w = a, cs2 = b, ct0 = c
